@@ -38,11 +38,11 @@ def cap_cfgs():
     c.append(cap("WRITE", 16, 16, cnt=1, **N))
     c.append(cap("WRITE", 16, 64, cnt=4, **N))
     c.append(cap("WRITE", 48, 48, cnt=1, **N))
-    c.append(cap("WRITE", 16, 20, cnt=-20, **N))
+    c.append(cap("WRITE", 16, 20, cnt=-20, **N, **{"_tier": "thorough"}))
     c.append(cap("WRITE_BYTE", 16, 20, **N))
     c.append(cap("ZEROOUT", 16, 48, **N))
     c.append(cap("DISCARD", 16, 48, **N, **{"_tier": "thorough"}))   # same path as ZEROOUT
-    c.append(cap("WRITE", 16, 16, cnt=1, offmode=1, **N))
+    c.append(cap("WRITE", 16, 16, cnt=1, offmode=1, **N, **{"_tier": "thorough"}))   # quick: the write_byte query below covers OFFMODE=1
     c.append(cap("WRITE", 16, 16, cnt=1, BEYOND_END=None, **N))       # fixed by 5d7d5931
     c.append(cap("WRITE_BYTE", 16, 20, offmode=1, **N))               # fixed by b20ebc92
     c.append(cap("WRITE", 16, 16, cnt=1, offmode=2, **N))             # unaligned offset, no carry
